@@ -458,3 +458,155 @@ def asm_prog(arg: dict) -> dict:
     o = assemble({"src": src, "files": files, "rom": arg["prog"].get("rom", "low"),
                   "defines": {d["n"]: d["v"] for d in arg["prog"].get("defines", [])}})
     return {"ok": o["ok"], "calls": o["calls"], "labels": sorted(o["labels"]), "err": o["err"], "exc": o["exc"], "src": src}
+
+
+# ------------------------------------------------------------------------------------------
+# sessions (C19)
+# ------------------------------------------------------------------------------------------
+_IPS = [80, 65, 84, 67, 72, 0x00, 0x12, 0x34, 0, 3, 1, 2, 3, 0x01, 0x80, 0x00, 0, 1, 9, 69, 79, 70]
+SESSION_SOURCES = {
+    "valid": {"src": "*=0x008000\nstart:\nlda.w #0x1234\nloop:\ndex\nbne loop\n.dl start, loop\n"},
+    "macros": {"src": "*=0x008000\n.macro m(x) {\nlocal:\n.db x\n.dw local\n}\n.macro helper() {\n.db 0xEE\n}\nm(1)\nm(2)\nhelper()\n"},
+    "syms": {"src": "*=0x008000\nshared = 5\nk := 3\nshared_label:\n.db shared, k\n.scope ns {\ninner:\n.db 1\n}\n.dl ns.inner\n"},
+    "table": {"src": "*=0x008000\n.table 't.tbl'\n.text 'abba'\n", "files": {"t.tbl": {"text": "01=a\n02=b\n0304=ab\n"}}},
+    "map": {"src": ".map identifier=1 bank_range=0x00, 0x3f addr_range=0x8000, 0xffff mask=0x8000\n"
+                   ".map identifier=2 bank_range=0x7e, 0x7f addr_range=0x0000, 0xffff mask=0x10000 writable=1\n"
+                   "*=0x018000\nhere:\n.dl here\n"},
+    "map2": {"src": ".map identifier=2 bank_range=0x00, 0x3f addr_range=0x0000, 0xffff mask=0x10000 writable=1\n"
+                    ".map identifier=3 bank_range=0x40, 0x6f addr_range=0x0000, 0xffff mask=0x10000 mirror_bank_range=0xc0, 0xef\n"
+                    "*=0x410000\nhere:\n.dl here\n@=0x001000\nram:\n.dl ram\n"},
+    "high": {"src": "*=0xC00000\nstart:\njmp.l start\n.dl start\n*=0xC1FFFE\nedge:\n.dl edge\nafter:\n", "rom": "high"},
+    "incbinA": {"src": "*=0x008000\n.incbin 'blob.bin'\nafter:\n.dl blob_bin, blob_bin__size, after\n",
+                "files": {"blob.bin": {"bytes": [1, 2, 3, 4, 5, 6, 7]}}},
+    "ipsA": {"src": "*=0x008000\n.db 1\n.include_ips 'p.ips', 0x200\n.db 2\n", "files": {"p.ips": {"bytes": _IPS}}},
+    "failscan": {"src": "*=0x008000\n.db 1\n.ascii 'abc\n.db 2\n"},
+    "failparse": {"src": "*=0x008000\n.db 1\nlda.w\n.macro (\n"},
+    "failexpand": {"src": "*=0x008000\n.db 1\nnosuchmacro(1)\n"},
+    "faillabel": {"src": "*=0x008000\nx_label:\n.db 1\nlda undefined_sym\n"},
+    "failemit": {"src": "*=0x008000\nok_label:\n.db 1\n.macro leaked(v) {\n.db v\n}\nleaked_sym = 7\n.dl undefined_sym\n"},
+    "p_plain": {"src": "*=0x008000\na:\n.db 1\n{\na:\n.dl a\n}\n.dl a\nlda.w a\nbra a\n"},
+    "p_usesmacro": {"src": "*=0x008000\n.db 1\nm(3)\n"},
+    "p_usessym": {"src": "*=0x008000\n.db 1\n.dl shared\n.db k\n"},
+    "p_text": {"src": "*=0x008000\n.db 1\n.text 'ab'\n"},
+    "p_bank": {"src": "*=0x018000\nhere:\n.dl here\n@=0x7e2000\nr:\n.dl r\n*=0x00FFFE\nedge:\n.dl edge\nnext:\n.dl next\n*=0x410000\n.db 1\n"},
+    "p_incbinB": {"src": "*=0x008000\n.incbin 'blob.bin'\nafter:\n.dl blob_bin, blob_bin__size, after\n",
+                  "files": {"blob.bin": {"bytes": [(3 * j + 1) % 256 for j in range(37)]}}},
+    "p_ipsB": {"src": "*=0x008000\n.db 1\n.include_ips 'p.ips', 0\n.db 2\n", "files": {"p.ips": {"bytes": _IPS}}},
+    "p_map": {"src": ".map identifier=1 bank_range=0x00, 0x1f addr_range=0x8000, 0xffff mask=0x8000 mirror_bank_range=0x80, 0x9f\n"
+                     "*=0x018000\nhere:\n.dl here\n*=0x818000\nmir:\n.dl mir\n"},
+}
+
+
+def _stable(v, depth=0):
+    import enum
+    import functools
+    if depth > 4:
+        return "<deep>"
+    if isinstance(v, (int, str, bool, float, bytes, type(None))):
+        return repr(v)
+    if isinstance(v, enum.Enum):
+        return f"{type(v).__name__}.{v.name}"
+    if isinstance(v, dict):
+        return "{" + ",".join(sorted(f"{_stable(k, depth + 1)}:{_stable(x, depth + 1)}" for k, x in v.items())) + "}"
+    if isinstance(v, (list, tuple)):
+        return "[" + ",".join(_stable(x, depth + 1) for x in v) + "]"
+    if isinstance(v, (set, frozenset)):
+        return "{" + ",".join(sorted(_stable(x, depth + 1) for x in v)) + "}"
+    if isinstance(v, functools._lru_cache_wrapper):
+        return f"lru_cache(currsize={v.cache_info().currsize})"
+    if isinstance(v, logging.Logger):
+        return f"Logger({v.name})"          # the logging machinery's own caches are not assembler state
+    if callable(v) or isinstance(v, type(sys)):
+        return f"<{type(v).__name__} {getattr(v, '__qualname__', getattr(v, '__name__', ''))}>"
+    if hasattr(v, "__dict__"):
+        return f"{type(v).__name__}(" + _stable({k: x for k, x in vars(v).items() if not k.startswith("__")}, depth + 1) + ")"
+    return f"<{type(v).__name__}>"
+
+
+def global_projection() -> dict:
+    """Digest of the process-wide state of a816: every module-level value and class attribute of the
+    a816.* / script.* modules that is not a function, class or module (those are listed by name only)."""
+    import hashlib
+    g = {}
+    for mname, mod in sorted(sys.modules.items()):
+        if mod is None or not (mname == "a816" or mname.startswith("a816.") or mname == "script" or mname.startswith("script.")):
+            continue
+        for attr, val in sorted(vars(mod).items()):
+            if attr.startswith("__"):
+                continue
+            if isinstance(val, type):
+                if getattr(val, "__module__", None) != mname:
+                    continue
+                for ca, cv in sorted(vars(val).items()):
+                    if ca.startswith("__") or callable(cv) or isinstance(cv, (property, staticmethod, classmethod)):
+                        continue
+                    g[f"{mname}.{attr}.{ca}"] = hashlib.sha1(_stable(cv).encode()).hexdigest()[:10]
+                continue
+            if isinstance(val, type(sys)):
+                continue
+            import functools
+            if callable(val) and not isinstance(val, functools._lru_cache_wrapper):
+                continue
+            g[f"{mname}.{attr}"] = hashlib.sha1(_stable(val).encode()).hexdigest()[:10]
+    return g
+
+
+def _session_child(ids) -> dict:
+    try:
+        import a816.program  # noqa: F401  (import everything before the first projection)
+        import a816.cli  # noqa: F401
+        import script.formulas  # noqa: F401
+        g0 = global_projection()
+        steps = []
+        for sid in ids:
+            s = SESSION_SOURCES[sid]
+            o = assemble({"src": s["src"], "files": s.get("files"), "rom": s.get("rom")})
+            import re
+            # default object reprs carry a memory address: not part of the error's meaning
+            err = re.sub(r" object at 0x[0-9a-fA-F]+>", " object at 0x?>", o["err"] or "")
+            steps.append({"src": sid, "res": {"ok": o["ok"], "calls": o["calls"], "labels": o["labels"], "err": err},
+                          "g": global_projection()})
+        return {"g0": g0, "steps": steps}
+    except BaseException as e:  # noqa: BLE001
+        import traceback
+        return {"driver_error": f"{type(e).__name__}: {e}", "tb": traceback.format_exc()[-1500:]}
+
+
+def session_history(arg: dict) -> dict:
+    """Run the assemblies arg['ids'] one after the other in ONE fresh process (forked from this worker,
+    which has imported nothing of a816 state-changing: the worker itself never assembles for C19)."""
+    import json
+    import select
+    import signal
+    r, w = os.pipe()
+    pid = os.fork()
+    if pid == 0:
+        try:
+            os.close(r)
+            out = _session_child(arg["ids"])
+            with os.fdopen(w, "w") as fh:
+                fh.write(json.dumps(out))
+        finally:
+            os._exit(0)
+    os.close(w)
+    chunks = []
+    deadline = 90.0
+    import time
+    t0 = time.time()
+    with os.fdopen(r, "r") as fh:
+        while True:
+            left = deadline - (time.time() - t0)
+            if left <= 0:
+                os.kill(pid, signal.SIGKILL)
+                os.waitpid(pid, 0)
+                return {"hang": True}
+            rd, _, _ = select.select([fh], [], [], min(left, 1.0))
+            if rd:
+                c = fh.read()
+                chunks.append(c)
+                break
+    os.waitpid(pid, 0)
+    try:
+        return json.loads("".join(chunks))
+    except Exception as e:  # noqa: BLE001
+        return {"driver_error": f"child produced no result: {e}"}
